@@ -23,7 +23,13 @@ var refAssumption = "the frozen protocol table (design/protocol-table.md) transc
 func init() {
 	specs["C01"] = &Spec{ID: "C01", Level: "exploration", Parallel: 8,
 		Assumptions: []string{refAssumption, hookAssumption, "32-bit arguments are sampled (boundaries, bit walks, random), not enumerated"},
-		Plan:        func(tier string) []Batch { return same(n(tier, 8, 16), Batch{Timeout: 20 * time.Minute}) }}
+		Plan: func(tier string) []Batch {
+			b := same(n(tier, 8, 16), Batch{Timeout: 20 * time.Minute})
+			// what actually arrives at real sockets (count and bytes): the workload of C06's loopback and network-namespace layers
+			keys := []string{":count", "request-bytes", "panic"}
+			b = append(b, same(n(tier, 1, 3), Batch{Mode: "loopback", RunAs: "C06", Keys: keys, Timeout: 30 * time.Minute, Procs: 8})...)
+			return append(b, same(n(tier, 1, 2), Batch{Mode: "netns", RunAs: "C06", Keys: keys, Netns: true, Timeout: 30 * time.Minute, Procs: 4})...)
+		}}
 }
 
 func init() {
@@ -31,7 +37,11 @@ func init() {
 		Assumptions: []string{refAssumption, hookAssumption, "process time zone UTC for the byte-pattern sweeps; six DST zones (all zones in thorough) for the date / date-time fields on transition days; civil times that do not exist in the zone are don't-care", "two digit system years >= 69, BCD year 0000 and the date 0001-01-01 are outside the stated domain (don't-care)"},
 		Plan: func(tier string) []Batch {
 			b := same(n(tier, 8, 16), Batch{Timeout: 30 * time.Minute})
+			// decoding under concurrency over the real transport: the workload of C08's hammer phase (every result compared with the
+			// reference decoding of the reply to its own request)
+			b = append(b, Batch{Mode: "hammer", RunAs: "C08", Keys: []string{"crossed-reply", "panic"}, Timeout: 30 * time.Minute, Procs: 8})
 			if tier == "thorough" {
+				b = append(b, Batch{Mode: "hammer", RunAs: "C08", Keys: []string{"crossed-reply", "panic", "race"}, Race: true, Timeout: 30 * time.Minute, Procs: 8})
 				return append(b, zoneBatches(0, "tz", 20*time.Minute)...)
 			}
 			for _, z := range []string{"America/New_York", "Europe/London", "America/Santiago", "Australia/Lord_Howe", "Asia/Beirut", "Pacific/Apia"} {
@@ -136,7 +146,10 @@ func init() {
 		Assumptions: []string{hookAssumption + " (hooked layer: BroadcastTo callback loop emulated)", loopAssumption, "on TCP one write is one 'datagram'; zero-length datagrams do not exist on TCP", "operations without a boolean / system date-time field have no 'malformed field' class"},
 		Plan: func(tier string) []Batch {
 			b := same(n(tier, 4, 8), Batch{Mode: "hook", Timeout: 20 * time.Minute})
-			return append(b, same(n(tier, 2, 6), Batch{Mode: "loopback", Timeout: 20 * time.Minute, Procs: 8})...)
+			b = append(b, same(n(tier, 2, 6), Batch{Mode: "loopback", Timeout: 20 * time.Minute, Procs: 8})...)
+			// "the content of any other datagram never appears in a returned result": results retained across later calls and
+			// listener bursts on the real transport (the workload of C17's loopback layer)
+			return append(b, same(n(tier, 1, 2), Batch{Mode: "loopback", RunAs: "C17", Keys: []string{"result-aliases-buffer", "event-from-another-datagram", "event-changes-after-delivery", "panic"}, Timeout: 20 * time.Minute, Procs: 4})...)
 		}}
 }
 
